@@ -16,8 +16,8 @@ def c08_parse(n):
     r = ["malformed"] if n < 2 else ["malformed", "wellformed"] if n <= 9 else ["malformed", "overlong"]
     return job("H_C08_parse", reach=r, n=n)
 idioms = [job("H_selftest_idioms", reach=["checked"], part=p) for p in range(6)] + [job("H_selftest_idioms", conc=True, reach=["checked"], part=6)]
-def c08e(kind, dl, md): return job("H_C08_e2e", conc=True, reach=["checked"], kind=kind, dl=dl, md=md)
-c08_tail = [job("H_C08_client", reach=["future-deadline", "expired-deadline"]), job("H_C08_nodeadline", reach=["done"]), c08e(0, 1, 0), c08e(1, 1, 0), c08e(0, 0, 0), c08e(1, 0, 0)]
+def c08e(kind, dl, md, **kw): return job("H_C08_e2e", conc=True, reach=["checked"], kind=kind, dl=dl, md=md, **kw)
+c08_tail = [job("H_C08_client", reach=["future-deadline", "expired-deadline"]), job("H_C08_nodeadline", reach=["done"]), c08e(0, 1, 0), c08e(1, 1, 0), c08e(0, 0, 0), c08e(1, 0, 0), c08e(0, 1, 0, stats=1), c08e(1, 1, 0, stats=1)]
 P["C08"] = {
  "title": "caller deadlines reach the handler; timeout header values mean what they say",
  "bounds": "parser vs grammar: every byte string of each length 0..10 (quick) / 0..13 (thorough); header lookup: 2 entries (thorough 3), key from {grpc-timeout in any letter case, 3 other keys}, every 2-byte (thorough 3-byte) value; client encoding: every deadline from 18 min in the past to 10^4 h ahead, arbitrary non-decreasing clock instants; end to end through the exported API (H_C08_e2e): one unary / one streaming call on a real client+server pair with such a deadline (or none), every schedule, every non-decreasing clock",
@@ -79,7 +79,7 @@ P["C02"] = {
 }
 
 # ---------------------------------------------------------------- C03
-c03q = [job("H_C03_unary", conc=True, ek=ek, nd=2) for ek in range(0, 10)] + [job("H_C03_unary", conc=True, reach=["ok"], ek=0, nd=0, zero=1)] + \
+c03q = [job("H_C03_unary", conc=True, ek=ek, nd=2) for ek in range(0, 10)] + [job("H_C03_unary", conc=True, reach=["ok"], ek=0, nd=0, zero=1)] + [job("H_C13_seq", conc=True, reach=["checked"], L=1, mode=2, stats=0, first=f) for f in (9, 12)] + \
        [job("H_C03_stream", conc=True, ek=ek, nd=1, pos=pos, sending=0, tcap=2) for ek in (8, 9) for pos in (0, 1)] + \
        [job("H_C03_stream", conc=True, ek=ek, nd=1, pos=pos, sending=0, tcap=2) for ek in (0, 1, 3, 4, 6) for pos in (0, 1)] + \
        [job("H_C03_stream", conc=True, ek=1, nd=1, pos=0, sending=1, tcap=2)] + \
@@ -101,7 +101,7 @@ P["C04"] = {
            job("H_C04_request_md", reach=["checked"], deadline=0), job("H_C04_request_md", reach=["checked"], deadline=1)] +
           [job("H_C04_stream_md", conc=True, reach=["checked"], mode=m, herr=h) for m in (0, 1, 2) for h in (0, 1)] + [job("H_C04_stream_md", conc=True, reach=["checked"], mode=m, herr=0) for m in (3, 4)] + [c08e(0, 0, 1), c08e(1, 0, 1)],
  "thorough": [c08e(0, 0, 1), c08e(1, 0, 1), c08e(0, 1, 1)] + [job("H_C04_stream_md", conc=True, reach=["checked"], mode=m, herr=h) for m in (0, 1, 2) for h in (0, 1)] + [job("H_C04_request_md", reach=["checked"], deadline=0), job("H_C04_request_md", reach=["checked"], deadline=1), job("H_C04_roundtrip", reach=["checked"], K=2, V=2, vlen=2), job("H_C04_roundtrip", reach=["checked"], K=1, V=1, vlen=3, allbin=1),
-              job("H_C04_roundtrip", reach=["checked"], K=3, V=1, vlen=3), job("H_C04_roundtrip", reach=["checked"], K=2, V=2, vlen=3, allbin=1), job("H_C04_join", reach=["checked"])],
+              job("H_C04_roundtrip", reach=["checked"], K=3, V=1, vlen=3), job("H_C04_roundtrip", reach=["checked"], K=2, V=1, vlen=3, allbin=1), job("H_C04_join", reach=["checked"])],
 }
 
 # ---------------------------------------------------------------- C05
@@ -109,13 +109,13 @@ P["C05"] = {
  "title": "multiplexed calls are isolated: unique ids, envelopes reach only their owner",
  "bounds": "inductive id step from an arbitrary 64-bit counter (any history shorter than 2^64); dispatch from a registry of two symbolic distinct ids with a symbolic envelope id; n concurrently starting callers (2 quick / 3 thorough), all interleavings; two concurrent calls (stream + unary) with every merge of their response sequences (stream bodies <= 2 / 3)",
  "assumptions": GEN_ASSUME,
- "quick": [job("H_C05_ids", conc=True, reach=["checked"], soft=["counter-inspected"]), job("H_C05_failed_write", conc=True, reach=["checked"]), job("H_C05_blocked_write", conc=True, reach=["checked"]), job("H_C05_dispatch", reach=["to-a", "to-b", "dropped"]), job("H_C05_concurrent_ids", conc=True, reach=["checked"], n=2),
+ "quick": [job("H_C05_ids", conc=True, reach=["checked"], soft=["counter-inspected"]), job("H_C05_failed_write", conc=True, reach=["checked"]), job("H_C05_blocked_write", conc=True, reach=["checked"]), job("H_C06_wire", conc=True, reach=["checked"], kind=1, cp=0, hp=3, msgs=2, zero=1, tcap=2), job("H_C05_dispatch", reach=["to-a", "to-b", "dropped"]), job("H_C05_concurrent_ids", conc=True, reach=["checked"], n=2),
            job("H_C05_concurrent_ids", conc=True, reach=["checked"], n=3), job("H_C05_merge", conc=True, reach=["checked"], bodies=2),
            job("H_C05_concurrent_ids", conc=True, reach=["checked"], n=1, streams=1), job("H_C05_concurrent_ids", conc=True, reach=["checked"], n=2, streams=1),
            job("H_C02_stream", conc=True, reach=["checked"], cp=0, hp=0, msgs=1), job("H_C01_direct", conc=True, reach=["quiescent"], callers=2),
            job("H_C11_server_abandon", conc=True, reach=["checked"], n=3, k=1),
            dict(job("H_C05_concurrent_ids", conc=True, n=1, streams=1), race=True), dict(job("H_C05_concurrent_ids", conc=True, n=2, streams=0), race=True)],
- "thorough": [job("H_C05_ids", conc=True, reach=["checked"], soft=["counter-inspected"]), job("H_C05_failed_write", conc=True, reach=["checked"]), job("H_C05_blocked_write", conc=True, reach=["checked"]), job("H_C05_dispatch", reach=["to-a", "to-b", "dropped"]), job("H_C05_concurrent_ids", conc=True, reach=["checked"], n=3),
+ "thorough": [job("H_C05_ids", conc=True, reach=["checked"], soft=["counter-inspected"]), job("H_C05_failed_write", conc=True, reach=["checked"]), job("H_C05_blocked_write", conc=True, reach=["checked"]), job("H_C06_wire", conc=True, reach=["checked"], kind=1, cp=0, hp=3, msgs=2, zero=1, tcap=2), job("H_C05_dispatch", reach=["to-a", "to-b", "dropped"]), job("H_C05_concurrent_ids", conc=True, reach=["checked"], n=3),
            job("H_C05_merge", conc=True, reach=["checked"], bodies=3), job("H_C01_direct", conc=True, reach=["quiescent"], callers=2),
            job("H_C05_concurrent_ids", conc=True, reach=["checked"], n=2, streams=2),
            dict(job("H_C05_concurrent_ids", conc=True, n=2, streams=1), race=True)],
@@ -123,7 +123,7 @@ P["C05"] = {
 
 # ---------------------------------------------------------------- C06
 def c06(**kw): return job("H_C06_wire", conc=True, reach=["checked"], **kw)
-c06q = [c06(kind=1, cp=0, hp=0, msgs=1, herr=h, tcap=1) for h in (2, 3, 4)] + [c06(kind=0, herr=0, hdrmode=1), c06(kind=0, herr=1), c06(kind=1, cp=0, hp=0, msgs=1, hdrmode=1), c06(kind=1, cp=0, hp=0, msgs=1, hdrmode=2),
+c06q = [job("H_C06_server_stream", conc=True, reach=["checked"], sendheader=e) for e in (0, 1)] + [c06(kind=1, cp=0, hp=0, msgs=1, herr=h, tcap=1) for h in (2, 3, 4)] + [c06(kind=0, herr=0, hdrmode=1), c06(kind=0, herr=1), c06(kind=1, cp=0, hp=0, msgs=1, hdrmode=1), c06(kind=1, cp=0, hp=0, msgs=1, hdrmode=2),
         c06(kind=1, cp=2, hp=1, msgs=1, herr=1, hdrmode=3), c06(kind=1, cp=0, hp=3, msgs=2), c06(kind=1, cp=2, hp=0, msgs=1, cancel=1, tcap=1), c06(kind=0, cancel=1),
         c06(kind=1, cp=0, hp=0, msgs=1, wfail=2, tcap=1), c06(kind=1, cp=0, hp=0, msgs=1, badmsg=1, tcap=1),
         c06(kind=1, cp=0, hp=3, msgs=2, zero=1, tcap=2), c06(kind=1, cp=0, hp=0, msgs=1, zero=1)]
@@ -132,12 +132,12 @@ P["C06"] = {
  "bounds": "complete wire history (taps on both directions) of one RPC per scenario, checked by the protocol automaton at every quiescent state: unary ok/error/cancel; bidi streams over the C02 program families with header modes {none, SetHeader+first message, SendHeader, SetTrailer}, handler errors, early handler return (reset path) and caller cancellation at an arbitrary point; msgs <= 2; all interleavings",
  "assumptions": GEN_ASSUME,
  "quick": c06q,
- "thorough": c06q + [c06(kind=1, cp=1, hp=0, msgs=1, cancel=1, tcap=1), c06(kind=1, cp=0, hp=2, msgs=2, herr=1), c06(kind=1, cp=0, hp=0, msgs=2, hdrmode=1)],
+ "thorough": c06q + [c06(kind=1, cp=2, hp=1, msgs=2, hdrmode=1, cancel=1, tcap=1), c06(kind=1, cp=1, hp=0, msgs=1, cancel=1, tcap=1), c06(kind=1, cp=0, hp=2, msgs=2, herr=1), c06(kind=1, cp=0, hp=0, msgs=2, hdrmode=1)],
 }
 
 # ---------------------------------------------------------------- C07
 def c07(**kw): return job("H_C07_cancel", conc=True, **kw)
-c07q = [c07(hmode=1, cprog=0, fault=0, tcap=1), c07(hmode=0, cprog=1, fault=0, tcap=1), c07(hmode=1, cprog=2, fault=0, tcap=1), c07(hmode=1, cprog=0, fault=1, tcap=1),
+c07q = [c07(hmode=0, cprog=2, fault=0, tcap=1), c07(hmode=1, cprog=0, fault=0, tcap=1), c07(hmode=0, cprog=1, fault=0, tcap=1), c07(hmode=1, cprog=2, fault=0, tcap=1), c07(hmode=1, cprog=0, fault=1, tcap=1),
         c07(hmode=2, cprog=0, m=1, fault=0, tcap=1)] + [job("H_C11_client_cancel_unread", conc=True, reach=["checked"], m=m) for m in (0, 2, 3)] + [job("H_C11_client_cancel_unread", conc=True, reach=["checked"], m=3, sender=1)]
 P["C07"] = {
  "title": "cancelling a streaming call cancels its handler and fails the caller's calls",
@@ -150,10 +150,10 @@ P["C07"] = {
 
 # ---------------------------------------------------------------- C10
 def c10(**kw): return job("H_C10_end", conc=True, reach=["checked"], **kw)
-c10q = [c10(u=1, s=0, fault=f) for f in (0, 1, 2)] + [c10(u=0, s=1, fault=f, hmode=h) for f in (0, 2) for h in (0, 1, 2)] + [c10(u=0, s=1, fault=1, hmode=2), c10(u=1, s=1, fault=0, hmode=0)] + [c10(u=0, s=1, fault=f, hmode=1, rst=1) for f in (0, 2)] + [c10(u=1, s=0, fault=f, orphan=2) for f in (0, 1, 2)]
+c10q = [c10(u=1, s=0, fault=f) for f in (0, 1, 2)] + [c10(u=0, s=1, fault=f, hmode=h) for f in (0, 2) for h in (0, 1, 2)] + [c10(u=0, s=1, fault=1, hmode=2), c10(u=1, s=1, fault=0, hmode=0)] + [c10(u=0, s=1, fault=f, hmode=1, rst=1) for f in (0, 2)] + [c10(u=1, s=0, fault=f, orphan=2) for f in (0, 1, 2)] + [c10(u=0, s=2, fault=f, hmode=h) for f, h in ((0, 0), (0, 1), (2, 1))]
 P["C10"] = {
  "title": "server connections end cleanly: Serve returns, handlers cancelled, no leaks",
- "bounds": "u unary + s streaming cooperative handlers in flight (u,s <= 1 quick; thorough up to (2,1),(1,2)); fault = read error / write error / Server.Stop, racing with the request script and the handlers (every position); streaming handlers blocked in RecvMsg, on their context, or sending; optionally two stray bodies for never-opened streams first (each refused with a reset of the server's own); all interleavings; goroutine census at quiescence",
+ "bounds": "u unary + s streaming cooperative handlers in flight (u <= 1, s <= 2 quick; thorough up to (2,1),(1,2)); fault = read error / write error / Server.Stop, racing with the request script and the handlers (every position); streaming handlers blocked in RecvMsg, on their context, or sending; optionally two stray bodies for never-opened streams first (each refused with a reset of the server's own); all interleavings; goroutine census at quiescence",
  "assumptions": GEN_ASSUME + ["handlers are cooperative: they return once their context is done"],
  "quick": c10q,
  "thorough": c10q + [c10(u=1, s=1, fault=2, hmode=2), c10(u=2, s=0, fault=0), c10(u=2, s=0, fault=2), c10(u=0, s=2, fault=0, hmode=0)],
@@ -162,10 +162,10 @@ P["C10"] = {
 # ---------------------------------------------------------------- C11
 c11q = [job("H_C11_server_abandon", conc=True, reach=["checked"], n=n, k=k) for n, k in ((2, 0), (3, 0), (3, 1), (3, 2))] + \
        [job("H_C11_client_extra", conc=True, reach=["probe-ok"], mode=m, extra=x) for m in (0, 1) for x in (2, 3)] + \
-       [job("H_C11_client_cancel_unread", conc=True, reach=["checked"], m=m) for m in (1, 3, 4)] + [job("H_C11_client_cancel_unread", conc=True, reach=["checked"], m=m, sender=1) for m in (2, 3)]
+       [job("H_C11_client_cancel_unread", conc=True, reach=["checked"], m=m) for m in (1, 3, 4)] + [job("H_C11_client_cancel_unread", conc=True, reach=["checked"], m=m, sender=1) for m in (2, 3)] + [job("H_C11_failed_open", conc=True, reach=["checked"], m=m) for m in (1, 2, 3)] + [job("H_C11_failed_open_cc", conc=True, reach=["checked"], m=m) for m in (2, 3)]
 P["C11"] = {
  "title": "an abandoned stream never wedges its connection",
- "bounds": "server side: a handler returns after k of n client messages (n <= 3 quick / 5 thorough, all k < n), the peer keeps sending the rest and the trailer, then a probe unary request must be served; client side: a finished stream or unary call receives 2..3 (thorough 4) further envelopes for its id, then a probe call must get its own reply; probes have no deadline (a wedge shows as a blocked goroutine); all interleavings",
+ "bounds": "server side: a handler returns after k of n client messages (n <= 3 quick / 5 thorough, all k < n), the peer keeps sending the rest and the trailer, then a probe unary request must be served; client side: a stream whose opening write is reported as failed after the peer has answered 1..3 times (multiplexer level and through ClientConn/Server); a finished stream or unary call receives 2..3 (thorough 4) further envelopes for its id, then a probe call must get its own reply; probes have no deadline (a wedge shows as a blocked goroutine); all interleavings",
  "assumptions": GEN_ASSUME,
  "quick": c11q,
  "thorough": c11q + [job("H_C11_server_abandon", conc=True, reach=["checked"], n=5, k=k) for k in (0, 2, 4)] + [job("H_C11_client_extra", conc=True, reach=["probe-ok"], mode=m, extra=4) for m in (0, 1)],
@@ -176,35 +176,37 @@ P["C12"] = {
  "title": "no envelope sequence from a peer can crash or stall a server",
  "bounds": "every sequence of L envelopes over 17 shapes x 2 stream ids (empty-bodied message, unary request and stream open with a malformed grpc-timeout value, header absent, unparsable method, unknown service, unknown method, foreign destination, valid unary, unary with undecodable -bin metadata, stream open, open with bad metadata, body, trailer, RST_STREAM, reset of another type, body for a foreign destination), L = 2 (quick); thorough adds L = 3: first envelope one of the 10 shapes the server refuses without starting a handler, the other two over a 9-shape sub-alphabet; first envelope a stream open, the other two over {valid unary, open, body, reset} (a valid unary request first did not finish in 900 s) (the full 17^3 did not finish within the per-job budget and is outside); each followed by a valid probe request and a clean end; all interleavings",
  "assumptions": GEN_ASSUME,
- "quick": [job("H_C12_seq", conc=True, reach=["checked"], L=2, first=f) for f in range(17)] +
+ "quick": [job("H_C12_seq", conc=True, reach=["checked"], L=2, first=f) for f in range(17) if f not in (5, 15)] +
+          [job("H_C12_seq", conc=True, reach=["checked"], L=2, first=f, second=s2) for f in (5, 15) for s2 in range(17)] +  # the two expensive first shapes, split by the second envelope
           [job("H_C12_seq", conc=True, reach=["checked"], L=3, first=7, second=9, third=9, oneid=1, lazy=1), job("H_C12_seq", conc=True, reach=["checked"], L=4, first=7, second=9, third=9, oneid=1, lazy=1),
-           job("H_C12_seq", conc=True, reach=["checked"], L=2, first=7, lazy=1)] +
+           ] + [job("H_C12_seq", conc=True, reach=["checked"], L=2, first=7, second=s2, lazy=1) for s2 in range(17)] +
+          [dict(job("H_C12_seq", conc=True, L=2, first=7, second=7, lazy=z), race=True) for z in (0, 1)] +  # two streams opening / finishing concurrently, with the race detector: a racing map access is a process crash in Go
           [job("H_C12_method", reach=["parsed", "error"], n=n) for n in (2, 3, 5)] + [job("H_C12_method", reach=["error"], n=0), job("H_C12_method", reach=["error"], n=1), job("H_selftest_lib", reach=["checked"])],
- "thorough": [job("H_C12_seq", conc=True, reach=["checked"], L=2, first=f) for f in range(17)] + [job("H_C12_seq", conc=True, reach=["checked"], L=3, first=f, alpha=1) for f in (0, 1, 2, 3, 4, 8, 10, 11, 12, 13)] + [job("H_C12_seq", conc=True, reach=["checked"], L=3, first=7, alpha=2)] +
+ "thorough": [job("H_C12_seq", conc=True, reach=["checked"], L=2, first=f) for f in range(17) if f not in (5, 15)] + [job("H_C12_seq", conc=True, reach=["checked"], L=2, first=f, second=s2) for f in (5, 15) for s2 in range(17)] + [job("H_C12_seq", conc=True, reach=["checked"], L=3, first=f, alpha=1) for f in (0, 1, 2, 3, 4, 8, 10, 11, 12, 13)] + [job("H_C12_seq", conc=True, reach=["checked"], L=3, first=7, alpha=2)] +
           [job("H_C12_seq", conc=True, reach=["checked"], L=3, first=7, second=9, lazy=1), job("H_C12_seq", conc=True, reach=["checked"], L=4, first=7, second=9, third=9, oneid=1, lazy=1)],
 }
 
 # ---------------------------------------------------------------- C13
 P["C13"] = {
  "title": "no envelope sequence from a peer can crash a client or leave a call hanging",
- "bounds": "two outstanding calls (unary+unary, unary+stream, stream+stream), with and without a stats handler; every sequence of L response envelopes over 12 shapes addressed to call 1, call 2 or an unknown id, then the connection closes (and, H_C11_client_cancel_unread: m bodies that nobody receives followed by the caller's cancellation); L = 1..2 (quick), 3 for unary+unary (thorough); all interleavings",
+ "bounds": "two outstanding calls (unary+unary, unary+stream, stream+stream), with and without a stats handler; every sequence of L response envelopes over 13 shapes addressed to call 1, call 2 or an unknown id, then the connection closes (and, H_C11_client_cancel_unread: m bodies that nobody receives followed by the caller's cancellation); L = 1..2 (quick), 3 for unary+unary (thorough); all interleavings",
  "assumptions": GEN_ASSUME,
  "quick": [job("H_C13_seq", conc=True, reach=["checked"], L=1, mode=m, stats=s) for m in (0, 1, 2) for s in (0, 1)] +
-          [job("H_C13_seq", conc=True, reach=["checked"], L=2, mode=0, stats=1, first=f) for f in range(12)] +
+          [job("H_C13_seq", conc=True, reach=["checked"], L=2, mode=0, stats=1, first=f) for f in range(13)] + [job("H_C13_seq", conc=True, reach=["checked"], L=1, mode=2, stats=0, first=f) for f in (9, 12)] +
           [job("H_C13_seq", conc=True, reach=["checked"], L=3, mode=m, stats=0, preset=1) for m in (0, 1)] +
           [job("H_C11_client_cancel_unread", conc=True, reach=["checked"], m=m) for m in (1, 3)],  # bodies nobody receives, then the caller gives up: the call must still end
  "thorough": [job("H_C11_client_cancel_unread", conc=True, reach=["checked"], m=m) for m in (1, 3)] + [job("H_C13_seq", conc=True, reach=["checked"], L=4, mode=0, stats=0, preset=1)] + [job("H_C13_seq", conc=True, reach=["checked"], L=1, mode=m, stats=s) for m in (0, 1, 2) for s in (0, 1)] +
-          [job("H_C13_seq", conc=True, reach=["checked"], L=2, mode=m, stats=1, first=f) for f in range(12) for m in (0, 1)] +
+          [job("H_C13_seq", conc=True, reach=["checked"], L=2, mode=m, stats=1, first=f) for f in range(13) for m in (0, 1)] +
           [job("H_C13_seq", conc=True, reach=["checked"], L=3, mode=0, stats=0, first=f) for f in range(12)],
 }
 
 # ---------------------------------------------------------------- C14
 def c14(**kw): return job("H_C14_release", conc=True, reach=["checked"], soft=(None if kw.get("outcome") == 7 else ["registries-inspected"]), **kw)
-c14q = [c14(outcome=o, pre=p, tcap=2) for o in (0, 1, 2, 3, 5, 6, 7) for p in (0, 1)] + [c14(outcome=4, pre=0, tcap=1)] + \
+c14q = [c14(outcome=o, pre=p, tcap=2) for o in (0, 1, 2, 3, 5, 6, 7) for p in (0, 1)] + [c14(outcome=8, pre=0, tcap=2)] + [c14(outcome=4, pre=0, tcap=1)] + \
        [job("H_C11_server_abandon", conc=True, reach=["checked"], n=3, k=1)]  # a handler that returns with messages unconsumed must still be released
 P["C14"] = {
  "title": "finishing an RPC releases everything held for it; state stays bounded",
- "bounds": "inductive step: one complete RPC (unary ok / handler error / transport write failure; stream ok / handler error / caller cancel at any point / failed open) on a real client+server pair, with and without another stream registered before; afterwards both registries have their previous size and the goroutine census is back at the idle level - so histories of any length follow by induction over idle-compatible states; all interleavings",
+ "bounds": "inductive step: one complete RPC (unary ok / handler error / transport write failure; stream ok / handler error / caller cancel at any point / failed open; unary call with metadata that ends by its deadline, both the caller's and the server-side deadline free to expire at any point) on a real client+server pair, with and without another stream registered before; afterwards both registries have their previous size and the goroutine census is back at the idle level - so histories of any length follow by induction over idle-compatible states; all interleavings",
  "assumptions": GEN_ASSUME + ["memory retained inside grpc/protobuf objects is outside"],
  "quick": c14q,
  "thorough": c14q + [c14(outcome=4, pre=1, tcap=1), c14(outcome=4, pre=0, tcap=2)],
@@ -226,7 +228,7 @@ P["C16"] = {
 }
 
 # ---------------------------------------------------------------- C17
-c17q = [job("H_C17_reject", reach=["rejected"], kind=k) for k in (0, 1, 2)] + [job("H_C17_reject", kind=k, unnamed=1) for k in (0, 1, 2)] + [job("H_C17_conc", conc=True, reach=["checked"], scenario=s, n=n) for s, n in ((0, 1), (1, 1), (2, 2), (3, 1), (4, 2), (5, 1))] + \
+c17q = [job("H_C17_reject", reach=["rejected"], kind=k) for k in (0, 1, 2)] + [job("H_C17_reject", kind=k, unnamed=1) for k in (0, 1, 2)] + [job("H_C17_conc", conc=True, reach=["checked"], scenario=s, n=n) for s, n in ((0, 1), (1, 1), (2, 2), (3, 1), (4, 2), (5, 1), (6, 1))] + \
        [job("H_C17_reject_e2e", conc=True, reach=["rejected"], kind=k) for k in (0, 1, 2)] + [job("H_C17_reject_e2e", conc=True, kind=k, unnamed=1) for k in (0, 1, 2)]
 P["C17"] = {
  "title": "a proxy rejects spoofed sources, isolates bad peers and shuts down cleanly",
@@ -238,7 +240,7 @@ P["C17"] = {
 
 # ---------------------------------------------------------------- C18
 def c18(**kw): return job("H_C18_demux", conc=True, reach=["checked"], **kw)
-c18q = [c18(K=2, L=3, W=1), c18(K=2, L=2, W=1, cancelKey=1), c18(K=2, L=2, W=1, stop=1), c18(K=1, L=2, W=0, stop=1, slow=1), c18(K=2, L=2, W=1, cancelKey=1, stop=1), job("H_C18_cancel_pending", conc=True, reach=["checked"]), job("H_C18_reuse_after_cancel", conc=True, reach=["checked"], twice=0), job("H_C18_reuse_after_cancel", conc=True, reach=["checked"], twice=1)]
+c18q = [c18(K=2, L=3, W=1), c18(K=2, L=2, W=1, cancelKey=1), c18(K=2, L=2, W=1, stop=1), c18(K=1, L=2, W=0, stop=1, slow=1), c18(K=2, L=2, W=1, cancelKey=1, stop=1), job("H_C18_cancel_pending", conc=True, reach=["checked"]), job("H_C18_cancel_parked_write", conc=True, reach=["checked"]), job("H_C18_reuse_after_cancel", conc=True, reach=["checked"], twice=0), job("H_C18_reuse_after_cancel", conc=True, reach=["checked"], twice=1)]
 P["C18"] = {
  "title": "a demultiplexer gives each key its own ordered connection and shares the writer",
  "bounds": "L envelopes (3 quick / 4 thorough) over K keys (2 / 3) in every key assignment, consumers per logical connection reading and writing W envelopes each; Cancel(key) and Stop() at any point, concurrent with the run loop, readers and writers; slow consumers; all interleavings",
@@ -248,7 +250,7 @@ P["C18"] = {
 }
 
 # ---------------------------------------------------------------- C19
-c19q = [dict(job("H_C19_ws_read", reach=["valid", "rejected"]), env=True), dict(job("H_C19_ws_write", reach=["checked"]), env=True), job("H_C19_channel", conc=True, reach=["checked"]),
+c19q = [dict(job("H_C19_ws_read", reach=["valid", "rejected"]), env=True), dict(job("H_C19_ws_write", reach=["checked"]), env=True), dict(job("H_C19_ws_write", reach=["checked"], zero=1), env=True), job("H_C19_channel", conc=True, reach=["checked"]),
         job("H_C19_http_serve", conc=True, reach=["valid", "rejected"]), job("H_C19_http_idle", conc=True, reach=["checked"], reader=0), job("H_C19_http_idle", conc=True, reach=["checked"], reader=1),
         dict(job("H_C19_http_idle", conc=True, reader=1), race=True), dict(job("H_C19_http_serve", conc=True), race=True)]
 P["C19"] = {
@@ -263,7 +265,7 @@ c20q = [job("H_C20_unary_chain", reach=["checked"], n=n) for n in (1, 2, 3, 4)] 
        [job("H_C20_stream_chain", reach=["checked"], n=n) for n in (1, 2, 3, 4)] + \
        [job("H_C20_stats_e2e", conc=True, reach=["checked"], H=h, kind=k, outcome=o) for h in (1, 2) for k in (0, 1) for o in (0, 1)] + \
        [job("H_C20_stats_e2e", conc=True, reach=["checked"], H=1, kind=1, outcome=o, late=1) for o in (0, 1)] + \
-       [job("H_C20_stats_failures", conc=True, reach=["checked"], H=2, outcome=o) for o in (0, 1, 2, 3)]
+       [job("H_C20_stats_failures", conc=True, reach=["checked"], H=2, outcome=o) for o in (0, 1, 2, 3, 4, 5)]
 P["C20"] = {
  "title": "interceptors and stats handlers see every RPC exactly once, in order",
  "bounds": "chains of n recording interceptors (1..4 quick, ..6 thorough) with symbolic request/reply rewrites, optionally short-circuiting, driven through the real processUnaryRpc and generated handler / the real chained stream interceptor; H = 1..2 (3 thorough) recording stats handlers on each side, unary and bidi RPC, ok and handler error, end to end with Begin/End pairing, tag propagation and ConnBegin/ConnEnd",
